@@ -8,6 +8,11 @@
 //                           `T name` (FindType) or `E name` (FindEntity, then ObjCreate by that name) -> {"k":"find",...}
 //        regdump read FILE  read the Part 21 file with STEPfile::ReadExchangeFile -> one {"k":"read-inst"} per instance
 //                           id listed in FILE.ids, then {"k":"read",...}
+//        regdump bounds FILE  attribute-dependent aggregate bounds: each line of FILE is `entity case-id attr=int attr=int ...`;
+//                           an instance of the entity is created with ObjCreate, the named INTEGER attributes are set, and for
+//                           every aggregate-typed attribute descriptor of the entity and of its supertypes (first supertype chain)
+//                           each aggregate level with a bound of type bound_runtime is evaluated for that instance with
+//                           Bound1Runtime() / Bound2Runtime() -> {"k":"rtb",...}
 // After the {"k":"inst"} record of an entity the fresh instance is written with STEPwrite: {"k":"inst-p21","entity":..,"text":..}
 // Only getters of the dictionary classes are used (Registry iteration, descriptor accessors, ObjCreate).
 // The library's cout chatter is discarded; every line is flushed so that a crash leaves the lines before it.
@@ -29,6 +34,7 @@ extern void SchemaInit( class Registry & );
 #include <string>
 #include <cstdio>
 #include <cstring>
+#include <strings.h>
 #include <cstdlib>
 
 static std::string js( const char * s ) {
@@ -235,6 +241,85 @@ int main( int argc, char ** argv ) {
         }
         printf( "{\"k\":\"read\",\"n\":%d,\"severity\":%d,\"msg\":%s,\"log\":%s}\n", instances.InstanceCount(), ( int )sfile.Error().severity(),
                 js( esink.str().substr( 0, 600 ) ).c_str(), js( sink.str().substr( 0, 1500 ) ).c_str() );
+        printf( "{\"k\":\"done\"}\n" );
+        fflush( stdout );
+        return 0;
+    }
+    if( argc > 2 && !strcmp( argv[1], "bounds" ) ) {
+        std::ifstream in( argv[2] );
+        std::string line;
+        while( std::getline( in, line ) ) {
+            std::istringstream ls( line );
+            std::string ename, caseid, kv;
+            if( !( ls >> ename >> caseid ) ) {
+                continue;
+            }
+            printf( "{\"k\":\"rtb-begin\",\"entity\":%s,\"case\":%s}\n", js( ename ).c_str(), js( caseid ).c_str() );
+            fflush( stdout );
+            const EntityDescriptor * ied = reg.FindEntity( ename.c_str() );
+            SDAI_Application_instance * se = reg.ObjCreate( ename.c_str() );
+            if( !ied || !se || se == ENTITY_NULL ) {
+                printf( "{\"k\":\"rtb-inst\",\"entity\":%s,\"case\":%s,\"created\":false}\n", js( ename ).c_str(), js( caseid ).c_str() );
+                fflush( stdout );
+                continue;
+            }
+            std::string setlog = "[";
+            int nset = 0;
+            while( ls >> kv ) {
+                size_t eq = kv.find( '=' );
+                if( eq == std::string::npos ) {
+                    continue;
+                }
+                std::string an = kv.substr( 0, eq );
+                long v = atol( kv.c_str() + eq + 1 );
+                bool done = false;
+                int cnt = se->AttributeCount();
+                for( int i = 0; i < cnt && !done; i++ ) {
+                    STEPattribute & a = se->attributes[i];
+                    if( a.Name() && !strcasecmp( a.Name(), an.c_str() ) && a.Integer() ) {
+                        *a.Integer() = v;
+                        done = true;
+                    }
+                }
+                setlog += std::string( nset++ ? "," : "" ) + "{\"attr\":" + js( an ) + ",\"value\":" + num( v ) + ",\"set\":" + ( done ? "true" : "false" ) + "}";
+            }
+            setlog += "]";
+            printf( "{\"k\":\"rtb-inst\",\"entity\":%s,\"case\":%s,\"created\":true,\"ename\":%s,\"set\":%s}\n", js( ename ).c_str(), js( caseid ).c_str(),
+                    js( se->EntityName() ).c_str(), setlog.c_str() );
+            fflush( stdout );
+            // the entity and its first-supertype chain (the generated C++ class derives from the class of the first supertype)
+            for( const EntityDescriptor * ed = ied; ed; ) {
+                AttrDescItr it( ed->ExplicitAttr() );
+                const AttrDescriptor * ad;
+                while( ( ad = it.NextAttrDesc() ) ) {
+                    const TypeDescriptor * td = ad->DomainType();
+                    for( int level = 0; td && level < 8; level++, td = td->ReferentType() ) {
+                        AggrTypeDescriptor * at = dynamic_cast< AggrTypeDescriptor * >( const_cast< TypeDescriptor * >( td ) );
+                        if( !at ) {
+                            break;
+                        }
+                        if( at->Bound1Type() != bound_runtime && at->Bound2Type() != bound_runtime ) {
+                            continue;
+                        }
+                        std::string o = "{\"k\":\"rtb\",\"entity\":" + js( ename ) + ",\"case\":" + js( caseid ) + ",\"owner\":" + js( ed->Name() )
+                                        + ",\"attr\":" + js( ad->Name() ) + ",\"level\":" + num( level );
+                        printf( "{\"k\":\"rtb-eval\",\"entity\":%s,\"case\":%s,\"owner\":%s,\"attr\":%s,\"level\":%d}\n", js( ename ).c_str(), js( caseid ).c_str(),
+                                js( ed->Name() ).c_str(), js( ad->Name() ).c_str(), level );
+                        fflush( stdout );
+                        if( at->Bound1Type() == bound_runtime ) {
+                            o += ",\"b1\":" + num( ( long )at->Bound1Runtime( se ) );
+                        }
+                        if( at->Bound2Type() == bound_runtime ) {
+                            o += ",\"b2\":" + num( ( long )at->Bound2Runtime( se ) );
+                        }
+                        printf( "%s}\n", o.c_str() );
+                        fflush( stdout );
+                    }
+                }
+                EntityDescItr si( ed->Supertypes() );
+                ed = si.NextEntityDesc();
+            }
+        }
         printf( "{\"k\":\"done\"}\n" );
         fflush( stdout );
         return 0;
